@@ -383,7 +383,7 @@ Fixpoint stat_loop (inc : record) (fs fd is_latest : bool) (st : record * (N * N
 
 (* the loop over ThroughputElements; vals = throughputVals[i:] (index out of range: panic) *)
 Fixpoint tp_loop (fs fd is_latest : bool) (ex : record) (vals : list N)
-  (l : list (string * string * string)) : ares record :=
+  (l : list (string * string * string)) {struct l} : ares record :=
   match l with
   | [] => AOk ex
   | (element, src_name, dst_name) :: t =>
@@ -397,33 +397,36 @@ Fixpoint tp_loop (fs fd is_latest : bool) (ex : record) (vals : list N)
       end
   end.
 
+(* the flowEndSeconds part of aggregateRecords: the updated record and either None (early
+   return: the record is not newer than the previous one of its node) or
+   Some (isLatest, flowEndSecondsDiff) *)
+Definition agg_phase1 (inc ex : record) (fs fd : bool) : ares (record * option (bool * N)) :=
+  match get inc "flowEndSeconds", get ex "flowEndSeconds" with
+  | Some vi, Some ve =>
+      ado iv <- get_u32 vi;
+      ado ev <- get_u32 ve;
+      let is_latest := N.leb ev iv in
+      let ex1 := if is_latest then set ex "flowEndSeconds" (AU32 iv) else ex in
+      ado p2 <- (if fs then update_flow_end_seconds_from_nodes inc ex1 true iv else AOk (ex1, 0));
+      ado p3 <- (if fd then update_flow_end_seconds_from_nodes inc (fst p2) false iv else AOk p2);
+      if N.leb iv (snd p3) then AOk (fst p3, None)
+      else AOk (fst p3, Some (is_latest, iv - snd p3))
+  | _, _ => AOk (ex, Some (false, 0))
+  end.
+
 Definition aggregate_records (c : agg_config) (inc ex : record) (fs fd : bool) : ares record :=
   if c_nil c then AOk ex else
-  (* flowEndSeconds: Some (record, isLatest, flowEndSecondsDiff) to continue, None = early return *)
-  ado ph1 <-
-    match get inc "flowEndSeconds", get ex "flowEndSeconds" with
-    | Some vi, Some ve =>
-        ado iv <- get_u32 vi;
-        ado ev <- get_u32 ve;
-        let is_latest := N.leb ev iv in
-        let ex1 := if is_latest then set ex "flowEndSeconds" (AU32 iv) else ex in
-        ado p2 <- (if fs then update_flow_end_seconds_from_nodes inc ex1 true iv else AOk (ex1, 0));
-        ado p3 <- (if fd then update_flow_end_seconds_from_nodes inc (fst p2) false iv else AOk p2);
-        let '(ex3, prev) := p3 in
-        if N.leb iv prev then AOk (ex3, None) else AOk (ex3, Some (is_latest, iv - prev))
-    | _, _ => AOk (ex, Some (false, 0))
-    end;
-  match ph1 with
-  | (ex3, None) => AOk ex3
-  | (ex3, Some (is_latest, diff)) =>
-      ado ex4 <- nonstat_loop inc is_latest ex3 (c_nonstats c);
+  ado ph1 <- agg_phase1 inc ex fs fd;
+  match snd ph1 with
+  | None => AOk (fst ph1)
+  | Some (is_latest, diff) =>
+      ado ex4 <- nonstat_loop inc is_latest (fst ph1) (c_nonstats c);
       ado st5 <- stat_loop inc fs fd is_latest (ex4, (0, 0)) (stat_triples c);
-      let '(ex5, (tcd, rtcd)) := st5 in
       if N.eqb diff 0 then APanic          (* integer divide by zero *)
       else
-        let throughput := mul8 tcd / diff in
-        let reverse_throughput := mul8 rtcd / diff in
-        tp_loop fs fd is_latest ex5 [throughput; reverse_throughput] (tp_triples c)
+        let throughput := mul8 (fst (snd st5)) / diff in
+        let reverse_throughput := mul8 (snd (snd st5)) / diff in
+        tp_loop fs fd is_latest (fst st5) [throughput; reverse_throughput] (tp_triples c)
   end.
 
 (* ---------------------------------------------------------------- ResetStatAndThroughputElementsInRecord *)
@@ -488,7 +491,7 @@ Fixpoint add_end_loop (c : agg_config) (fs fd : bool) (time_end : N) (r : record
       add_end_loop c fs fd time_end (r ++ [(n, AU32 value)]) t
   end.
 Fixpoint add_tp_loop (c : agg_config) (fs fd : bool) (r : record) (vals : list N)
-  (l : list (string * string * string)) : ares record :=
+  (l : list (string * string * string)) {struct l} : ares record :=
   match l with
   | [] => AOk r
   | (element, src_name, dst_name) :: t =>
